@@ -20,6 +20,9 @@ enum Beh {
     FutureThenGenuine(u16),
     /// the genuine reply twice
     Duplicate,
+    /// the genuine reply and, in the same segment, a frame that already carries the NEXT transaction
+    /// id (it arrives before the next request is transmitted: it must not become its result)
+    GenuineThenNextInOneRead,
     /// only a stale frame: the request must time out
     StaleOnly(u16),
     Silent,
@@ -95,6 +98,7 @@ fn run_session(seed: u64, n: u64, long: bool, ev: &mut Evidence) {
                     2 => Beh::FutureThenGenuine(rng.range(1, 65535) as u16),
                     3 => Beh::FutureThenGenuine(1),
                     4 => Beh::Duplicate,
+                    9 => Beh::GenuineThenNextInOneRead,
                     5 => Beh::StaleOnly(*rng.pick(&[1u16, 256, 0x8000, 65535])),
                     6 => Beh::Silent,
                     7 => Beh::Late,
@@ -176,6 +180,16 @@ fn run_session(seed: u64, n: u64, long: bool, ev: &mut Evidence) {
                     Beh::Duplicate => {
                         send(&mut p, &mut items, tx, false);
                         send(&mut p, &mut items, tx, false);
+                    }
+                    Beh::GenuineThenNextInOneRead => {
+                        send(&mut p, &mut items, tx, false);
+                        send(&mut p, &mut items, tx.wrapping_add(1), false);
+                        // one segment: the client reads both frames with one read
+                        if let (Some(In::Chunk(b)), true) = (items.pop(), items.len() >= 1) {
+                            if let Some(In::Chunk(a)) = items.last_mut() {
+                                a.extend(b);
+                            }
+                        }
                     }
                     Beh::StaleOnly(d) => send(&mut p, &mut items, tx.wrapping_sub(d), false),
                     Beh::Silent => {}
